@@ -1,18 +1,155 @@
 package props
 
 import (
+	"crypto/sha256"
 	"encoding/json"
 	"fmt"
 	"os"
+	"path/filepath"
 	"strconv"
 	"strings"
 	"testing"
+	"time"
 )
 
-// TestSim is the worker entry point: SIM_PROP, SIM_SEEDS=start:count, SIM_TIER, SIM_OUT (jsonl),
-// SIM_REPLAY (file with a JSON choice list), SIM_LOG=1 to print the event log.
+// ReplayFile is the self-contained record of a violation: replaying Choices against the same
+// tree reproduces the same signature and the same event-log hash.
+type ReplayFile struct {
+	Property  string   `json:"property"`
+	Tier      string   `json:"tier"`
+	Seed      uint64   `json:"seed"`
+	Signature string   `json:"signature"`
+	Oracle    string   `json:"oracle"`
+	Detail    string   `json:"detail"`
+	Choices   []int    `json:"choices"`
+	LogHash   string   `json:"log_hash"`
+	Steps     int64    `json:"steps"`
+	SimMs     int64    `json:"sim_ms"`
+	Original  int      `json:"original_choices"`
+	ShrinkRuns int     `json:"shrink_runs"`
+	Sample    string   `json:"sample"`
+	Trace     []string `json:"trace"`
+}
+
+func firstSig(r *Result) string {
+	if len(r.Violations) == 0 {
+		return ""
+	}
+	return r.Violations[0].Signature
+}
+
+// shrink minimises the choice list while the same violation signature persists.
+func shrink(t *testing.T, prop, tier string, vals []int, sig string, budget int) ([]int, int) {
+	runs := 0
+	ok := func(v []int) bool {
+		if runs >= budget {
+			return false
+		}
+		runs++
+		r := RunOne(t, prop, 0, v, tier, false)
+		return r.Infra == "" && firstSig(r) == sig
+	}
+	cur := append([]int(nil), vals...)
+	// 1. drop the tail (missing choices read as 0: quiet continuation)
+	for step := len(cur) / 2; step > 0; {
+		if len(cur)-step >= 0 && ok(cur[:len(cur)-step]) {
+			cur = cur[:len(cur)-step]
+			if step > len(cur) {
+				step = len(cur)
+			}
+		} else {
+			step /= 2
+		}
+	}
+	// 2. zero blocks
+	for size := len(cur) / 2; size >= 1 && runs < budget; size /= 2 {
+		for at := 0; at < len(cur) && runs < budget; at += size {
+			end := at + size
+			if end > len(cur) {
+				end = len(cur)
+			}
+			nz := false
+			for _, x := range cur[at:end] {
+				if x != 0 {
+					nz = true
+					break
+				}
+			}
+			if !nz {
+				continue
+			}
+			cand := append([]int(nil), cur...)
+			for i := at; i < end; i++ {
+				cand[i] = 0
+			}
+			if ok(cand) {
+				cur = cand
+			}
+		}
+		if size == 1 {
+			break
+		}
+	}
+	// 3. drop trailing zeros
+	for len(cur) > 0 && cur[len(cur)-1] == 0 {
+		cur = cur[:len(cur)-1]
+	}
+	return cur, runs
+}
+
+func writeReplay(t *testing.T, dir string, res *Result, tier string, doShrink bool) string {
+	sig := firstSig(res)
+	vals := res.ChoiceVals
+	orig := len(vals)
+	runs := 0
+	if doShrink {
+		vals, runs = shrink(t, res.Prop, tier, vals, sig, envInt("SIM_SHRINK_BUDGET", 300))
+	}
+	// final run with the full trace; must reproduce
+	fin := RunOne(t, res.Prop, 0, vals, tier, true)
+	if firstSig(fin) != sig {
+		// fall back to the unshrunk list
+		vals = res.ChoiceVals
+		fin = RunOne(t, res.Prop, 0, vals, tier, true)
+	}
+	rf := ReplayFile{Property: res.Prop, Tier: tier, Seed: res.Seed, Signature: sig, Choices: vals,
+		LogHash: fin.LogHash, Steps: fin.Steps, SimMs: fin.SimTimeMs, Original: orig, ShrinkRuns: runs, Sample: fin.Sample}
+	if len(fin.Violations) > 0 {
+		rf.Oracle = fin.Violations[0].Oracle
+		rf.Detail = fin.Violations[0].Detail
+	}
+	tr := fin.Log
+	if len(tr) > 600 {
+		tr = append([]string{fmt.Sprintf("... %d earlier events omitted ...", len(tr)-600)}, tr[len(tr)-600:]...)
+	}
+	rf.Trace = tr
+	h := sha256.Sum256([]byte(sig))
+	name := fmt.Sprintf("%s-%d-%x.json", res.Prop, res.Seed, h[:4])
+	_ = os.MkdirAll(dir, 0o755)
+	path := filepath.Join(dir, name)
+	js, _ := json.MarshalIndent(rf, "", " ")
+	if err := os.WriteFile(path, js, 0o644); err != nil {
+		t.Fatalf("cannot write replay file: %v", err)
+	}
+	return path
+}
+
+// TestSim is the worker entry point.
+//
+//	SIM_PROP      property id
+//	SIM_SEEDS     start:count
+//	SIM_TIER      quick|thorough
+//	SIM_OUT       jsonl output file (one Result per run)
+//	SIM_DEADLINE  unix seconds after which no new run is started
+//	SIM_REPLAYDIR where replay files of violations are written (with shrinking)
+//	SIM_REPLAY    replay file to re-execute (prints the trace)
+//	SIM_LOG=1     print the event log of every run
 func TestSim(t *testing.T) {
 	prop := os.Getenv("SIM_PROP")
+	if rp := os.Getenv("SIM_REPLAY"); rp != "" {
+		replayMain(t, rp)
+		return
+	}
 	if prop == "" {
 		t.Skip("SIM_PROP not set")
 	}
@@ -28,7 +165,9 @@ func TestSim(t *testing.T) {
 			count, _ = strconv.Atoi(parts[1])
 		}
 	}
+	deadline := int64(envInt("SIM_DEADLINE", 0))
 	keep := os.Getenv("SIM_LOG") != ""
+	rdir := os.Getenv("SIM_REPLAYDIR")
 	var out *os.File
 	if p := os.Getenv("SIM_OUT"); p != "" {
 		var err error
@@ -38,7 +177,11 @@ func TestSim(t *testing.T) {
 		}
 		defer out.Close()
 	}
+	shrunk := map[string]bool{}
 	for i := 0; i < count; i++ {
+		if deadline > 0 && time.Now().Unix() >= deadline {
+			break
+		}
 		seed := start + uint64(i)
 		res := RunOne(t, prop, seed, nil, tier, keep)
 		if keep {
@@ -46,11 +189,45 @@ func TestSim(t *testing.T) {
 				fmt.Println(l)
 			}
 		}
-		js, _ := json.Marshal(res)
+		type outRec struct {
+			*Result
+			Replay string `json:"replay,omitempty"`
+		}
+		rec := outRec{Result: res}
+		if sig := firstSig(res); sig != "" && rdir != "" && res.Infra == "" {
+			rec.Replay = writeReplay(t, rdir, res, tier, !shrunk[sig])
+			shrunk[sig] = true
+		}
+		js, _ := json.Marshal(rec)
 		if out != nil {
 			out.Write(append(js, '\n'))
 		} else {
 			fmt.Println(string(js))
 		}
 	}
+}
+
+func replayMain(t *testing.T, path string) {
+	b, err := os.ReadFile(path)
+	if err != nil {
+		fmt.Printf("REPLAY-ERROR cannot read %s: %v\n", path, err)
+		return
+	}
+	var rf ReplayFile
+	if err := json.Unmarshal(b, &rf); err != nil {
+		fmt.Printf("REPLAY-ERROR bad replay file: %v\n", err)
+		return
+	}
+	res := RunOne(t, rf.Property, rf.Seed, rf.Choices, rf.Tier, true)
+	if os.Getenv("SIM_LOG") != "" {
+		for _, l := range res.Log {
+			fmt.Println(l)
+		}
+	}
+	sig := firstSig(res)
+	out := map[string]interface{}{"property": rf.Property, "expected_signature": rf.Signature, "signature": sig,
+		"expected_log_hash": rf.LogHash, "log_hash": res.LogHash, "infra": res.Infra,
+		"reproduced": sig == rf.Signature && sig != "", "exact": res.LogHash == rf.LogHash}
+	js, _ := json.Marshal(out)
+	fmt.Println("REPLAY-RESULT " + string(js))
 }
